@@ -21,6 +21,8 @@ DECIDED = ('(a) in RadiDict.get a wildcard value is appended to the parameters o
            'parameter names and values are zipped positionally from one lookup result, anonymous ones dropped; (g) when the '
            'tail of a rule is mounted below an existing prefix, the filter / exclusivity lists are sliced by the number of '
            'wildcards already consumed, in step with the sliced pattern.')
+DECIDED_MORE = ('Also: a literal child chosen by a search (idx.find) excludes the wildcard marker; the filter-handler cache is keyed by an injective composition of (filter, configuration).')
+DECIDED = DECIDED + ' ' + DECIDED_MORE
 NOT_DECIDED = ('equivalence of the radix-tree search with a rule-by-rule matcher over all rule sets x paths (algorithmic '
                'equivalence over unbounded inputs); regex semantics of user filters; the rule-text parser.')
 ASSUMPTIONS = ['re.Pattern.match anchors at the start of the string it is given']
